@@ -103,6 +103,19 @@ Theorem C08_exponent_instance : forall (q g : Z), (0 < q)%Z ->
 Proof. exact zq_instance. Qed.
 Print Assumptions C08_exponent_instance.
 
+(* closed instance for the Paillier-style homomorphisms (n-th root protocol): the units
+   modulo M (M = N^2; represented with their inverses, canonical representatives) under
+   multiplication, integer powers as the action, phi(r) = r^N, anchor u = x, l = N.  All
+   hypotheses of the Maurer theorems hold, for every modulus M > 0 and every N; no
+   primality or coprimality assumption is needed *)
+Theorem C08_paillier_power_instance : forall (M : Z) (HM : (0 < M)%Z) (N : Z),
+  ab_action (umul M HM) (uinv M HM) (uone M HM) (upow M HM) /\
+  is_hom (umul M HM) (upow M HM) (umul M HM) (upow M HM) (upow M HM N) /\
+  decides_eq (ueqb M) /\
+  forall x, upow M HM N ((fun y => y) x) = upow M HM N x.
+Proof. exact units_power_instance. Qed.
+Print Assumptions C08_paillier_power_instance.
+
 (* ---------------- AND / OR composition ---------------- *)
 
 (* sigand (cartesian): complete when both branches are; accepts exactly when both branches
